@@ -37,6 +37,17 @@ def setup():
   courier_server.CourierServer.__del__ = lambda self: None
 
 
+def gen_stall(n, fail_at, ret, tag, stall_at):
+  """Like targets.gen_range but stalls for 1000 virtual seconds before producing element `stall_at`."""
+  for i in range(n):
+    if i == stall_at:
+      dsched.time_shim.sleep(1000.0)
+    if i == fail_at:
+      raise KeyError(f'fail at {i}')
+    yield (tag, i)
+  return ret
+
+
 def run_case(case):
   from ml_metrics._src.chainables import courier_server, lazy_fns as lf  # pylint: disable=g-import-not-at-top
   a, b = case['gen_a'], case.get('gen_b')
@@ -46,6 +57,8 @@ def run_case(case):
   info = {}
 
   def lazy_gen(g, tag):
+    if g.get('stall_at') is not None:
+      return lf.pickler.dumps(lf.trace(gen_stall)(g['n'], g['fail_at'], g['ret'], tag, g['stall_at']))
     return lf.pickler.dumps(lf.trace(targets.gen_range)(g['n'], g['fail_at'], g['ret'], tag))
 
   def client():
@@ -69,6 +82,7 @@ def run_case(case):
         break
     else:
       raise Violation('no-terminal-marker', f'{what}: 40 requests without a terminal marker; log={log}')
+    info['client_done_at'] = dsched.S().now
     s._stop_prefetch()  # pylint: disable=protected-access
 
   def interrupter():
@@ -81,6 +95,7 @@ def run_case(case):
       if s is None:
         dsched.time_shim.sleep(0.001)
     info['interrupted_at'] = len(log)
+    info['interrupt_time'] = dsched.S().now
     if kind == 'stop_prefetch':
       s._stop_prefetch()  # pylint: disable=protected-access
     else:
@@ -109,6 +124,15 @@ def run_case(case):
     raise crash(e, what) from e
   # ---- oracle over the log
   interrupted = case.get('interrupt') is not None
+  stalls = a.get('stall_at') is not None and a['stall_at'] < a['n'] and (a['fail_at'] is None or a['stall_at'] <= a['fail_at'])
+  if interrupted and case['interrupt'][0] == 'stop_prefetch' and stalls and info.get('interrupt_time', 1e9) < 1000.0:
+    # (a shutdown *request* alone only flags the server; the prefetch is stopped by the serving thread, which this harness
+    # does not run)
+    # a stop issued while the generator is stalled must end the pending request with the retriable marker
+    # right away; the request must not stay blocked until the generator moves again (virtual time 1000)
+    check(info.get('client_done_at', 1e9) < 1000.0, 'pending-request-not-released-by-stop',
+          f'{what}: stop/shutdown was issued at t={info.get("interrupt_time")} but the pending request was only answered at '
+          f't={info.get("client_done_at")} (the generator stalls until t=1000); log={log}')
 
   def expect(g, tag):
     upto = g['n'] if g['fail_at'] is None else min(g['fail_at'], g['n'])
@@ -173,6 +197,8 @@ def strat(tier):
       case['reinit_after'] = draw(st.integers(0, 3))
     elif mode == 'interrupt':
       case['interrupt'] = [draw(st.sampled_from(['stop_prefetch', 'shutdown'])), draw(st.integers(0, 8))]
+      if draw(st.booleans()):
+        case['gen_a'] = dict(case['gen_a'], stall_at=draw(st.integers(0, 6)))
     return case
   return s()
 
